@@ -85,6 +85,7 @@ inline Tissue build_tissue(const Plan& pl, const V3& global_shift = V3()) {
         sim::Rng sr(s.mesh_seed * 7 + pl.seed);
         TriMesh m = gen_shape(s.shape, s.res, sr);
         if (pl.geti(pre + "rot", 1)) m.apply(random_rotation(sr), V3());
+        double jit = pl.get("jitter", 0); if (jit > 0) { double e = m.mean_edge(); for (auto& p : m.V) p += random_unit(sr) * (jit * e * sr.uni()); }   // break the symmetry of the generator shapes
         m.scale(s.radius); m.translate(s.center + global_shift);
         cell_ptr c = make_cell(s.kind, m, (unsigned)k, T.types[s.kind]);
         c->initialize_cell_properties();      // throws for an invalid generated mesh: generator bug, propagates
